@@ -18,6 +18,8 @@ pub struct BlockCase {
   pub regs: [u32; 5],
   pub pre: Vec<(u16, u8)>,
   pub probes: Vec<u16>,
+  /// machine cycles already pending in the register file when the block starts (5 after an interrupt dispatch)
+  pub cyc0: u32,
 }
 
 const UNDEF: [u8; 11] = [0xd3, 0xdb, 0xdd, 0xe3, 0xe4, 0xeb, 0xec, 0xed, 0xf4, 0xfc, 0xfd];
@@ -84,7 +86,8 @@ pub fn gen(seed: u64, idx: usize, thorough: bool) -> BlockCase {
     probes.push(base);
   }
   if rng.chance(1, 4) { pre.push((0xffff, rng.u8())); pre.push((0xff0f, rng.u8())); }
-  BlockCase { code, at, regs: [((a as u32) << 8) | f, bc as u32, de as u32, hl as u32, sp as u32], pre, probes }
+  let cyc0 = match rng.below(8) { 0 => 5, 1 => rng.below(60) as u32, _ => 0 };
+  BlockCase { code, at, regs: [((a as u32) << 8) | f, bc as u32, de as u32, hl as u32, sp as u32], pre, probes, cyc0 }
 }
 
 pub fn setup(c: &BlockCase) -> Core {
@@ -97,7 +100,7 @@ pub fn setup(c: &BlockCase) -> Core {
   let p = &mut core.memory as *mut MemoryAreas;
   for (a, v) in c.pre.iter() { memory_write_byte(p, *a, *v); }
   core.registers.af = c.regs[0]; core.registers.bc = c.regs[1]; core.registers.de = c.regs[2];
-  core.registers.hl = c.regs[3]; core.registers.sp = c.regs[4]; core.registers.ip = c.at as u32; core.registers.cycles = 0;
+  core.registers.hl = c.regs[3]; core.registers.sp = c.regs[4]; core.registers.ip = c.at as u32; core.registers.cycles = c.cyc0;
   core
 }
 
@@ -178,8 +181,8 @@ pub fn run_jit(c: &BlockCase) -> String {
 fn header_part(idx: usize, c: &BlockCase) -> String {
   let pre: Vec<String> = c.pre.iter().map(|(a, v)| format!("{}:{}", a, v)).collect();
   let pr: Vec<String> = c.probes.iter().map(|a| a.to_string()).collect();
-  format!("c01 idx={} code={} at={} regs={},{},{},{},{} pre={} probes={}", idx, hex(&c.code), c.at,
-    c.regs[0], c.regs[1], c.regs[2], c.regs[3], c.regs[4], pre.join(";"), pr.join(","))
+  format!("c01 idx={} code={} at={} regs={},{},{},{},{} cyc={} pre={} probes={}", idx, hex(&c.code), c.at,
+    c.regs[0], c.regs[1], c.regs[2], c.regs[3], c.regs[4], c.cyc0, pre.join(";"), pr.join(","))
 }
 
 /// child: cases from..to on fd 2, one line each, flushed (`J idx <jit outcome>` after `I idx <interp outcome>`)
@@ -253,7 +256,7 @@ pub fn run(sub: &str, opts: &Opts, w: &mut dyn Write) {
 
 // ---------------------------------------------------------------------------------------------------------------------
 // c01.grid: small operand domains enumerated completely, natively, in both engines.
-// One machine per instruction; the block `<instruction> ; HALT` at 0x0200 is translated once and then run from every
+// One machine per instruction; the block `<instruction> ; JP 0x0300` at 0x0200 is translated once and then run from every
 // state of the grid through the translation and through the interpreter; registers, the status and the operand byte
 // at 0xC800 (and the two stack bytes below 0xD000 for PUSH) are compared.  One protocol line per instruction:
 //   c01.grid code=<hex> dom=<name> | n=<states run> bad=<mismatches> first=<state: interp vs translated>
@@ -270,7 +273,10 @@ fn grid_outcome(core: &mut Core, st: u8) -> String {
   let p = &mut core.memory as *mut MemoryAreas;
   let r = &core.registers;
   let (af, bc, de, hl, sp, ip, cy) = (r.af, r.bc, r.de, r.hl, r.sp, r.ip, r.cycles);
-  format!("{},{},{},{},{},{},{};{};{},{},{}", af, bc, de, hl, sp, ip, cy, st, memory_read_byte(p, 0xc800), memory_read_byte(p, 0xcffe), memory_read_byte(p, 0xcfff))
+  // the status byte by its class, as Core::run_code_block reads it: STOP, HALT, DI, EI (delayed or immediate), anything else = normal
+  // (translated rotates / BIT leave 0x80 there when the result is zero; no arm of the match in run_code_block reads that value)
+  let class = match st { 1 => 1, 2 => 2, 3 => 3, 4 | 5 => 4, _ => 0 };
+  format!("{},{},{},{},{},{},{};{};{},{},{}", af, bc, de, hl, sp, ip, cy, class, memory_read_byte(p, 0xc800), memory_read_byte(p, 0xcffe), memory_read_byte(p, 0xcfff))
 }
 
 fn grid_set(core: &mut Core, s: &GState) {
@@ -278,13 +284,14 @@ fn grid_set(core: &mut Core, s: &GState) {
   memory_write_byte(p, 0xc800, s.1); memory_write_byte(p, 0xc801, (s.0[0] >> 8) as u8);
   memory_write_byte(p, 0xcffe, 0x5a); memory_write_byte(p, 0xcfff, 0xa5);
   core.registers.af = s.0[0]; core.registers.bc = s.0[1]; core.registers.de = s.0[2]; core.registers.hl = s.0[3]; core.registers.sp = s.0[4];
-  core.registers.ip = GRID_AT as u32; core.registers.cycles = 0;
+  core.registers.ip = GRID_AT as u32; core.registers.cycles = 5;   // as after an interrupt dispatch
 }
 
 fn grid_run(code: &[u8], dom: &str, states: &mut dyn Iterator<Item = GState>, w: &mut dyn Write) {
   let mut core = mk_core(0x03, 1, 3);
   for (k, b) in code.iter().enumerate() { core.memory.rom[GRID_AT as usize + k] = *b; }
-  core.memory.rom[GRID_AT as usize + code.len()] = 0x76;
+  // terminator `JP 0x0300`: it leaves the status byte alone, so a template that leaks a scratch value into it shows
+  for (k, b) in [0xc3u8, 0x00, 0x03].iter().enumerate() { core.memory.rom[GRID_AT as usize + code.len() + k] = *b; }
   core.cache.set_rom_bank(core.memory.get_rom_bank());
   let addr = core.cache.translate_code_block(&core.memory.rom, GRID_AT as usize, core.memory.as_ptr());
   let (mut n, mut bad) = (0usize, 0usize);
@@ -385,6 +392,23 @@ pub fn grid(opts: &Opts, w: &mut dyn Write) {
       let mut it = e16.clone().into_iter().flat_map(|sp| vec![0x00u32, 0xf0].into_iter().map(move |f| ([0x9c00 | f, 0x1122, 0x3344, 0x5566, sp as u32], 0x77u8)));
       grid_run(&[code0, e], "SP*F", &mut it, w);
     }
+  }
+  // 6. control flow: JR / JR cc with every displacement, JP cc / CALL cc / RET cc / RST / JP (HL) / RETI, under every flag nibble
+  //    (these end the block themselves; the JP appended by grid_run is never reached)
+  for op in [0x18u8, 0x20, 0x28, 0x30, 0x38] { for d in 0..=255u8 {
+    if !mine() { continue; }
+    let mut it = (0..16u32).map(|f| ([0x9c00 | (f << 4), 0x1122, 0x3344, 0x5566, 0xd000], 0x77u8));
+    grid_run(&[op, d], "F", &mut it, w);
+  }}
+  for code in [vec![0xc3u8, 0x34, 0x12], vec![0xc2, 0x34, 0x12], vec![0xca, 0x34, 0x12], vec![0xd2, 0x34, 0x12], vec![0xda, 0x34, 0x12],
+               vec![0xcd, 0x34, 0x12], vec![0xc4, 0x34, 0x12], vec![0xcc, 0x34, 0x12], vec![0xd4, 0x34, 0x12], vec![0xdc, 0x34, 0x12],
+               vec![0xc9], vec![0xc0], vec![0xc8], vec![0xd0], vec![0xd8], vec![0xd9], vec![0xe9],
+               vec![0xc7], vec![0xcf], vec![0xd7], vec![0xdf], vec![0xe7], vec![0xef], vec![0xf7], vec![0xff],
+               vec![0x76], vec![0x10, 0x00], vec![0xf3], vec![0xfb]] {
+    if !mine() { continue; }
+    let e = e16.clone();
+    let mut it = (0..16u32).flat_map(|f| { let e = e.clone(); e.into_iter().map(move |hl| ([0x9c00 | (f << 4), 0x1122, 0x3344, hl as u32, 0xd000], 0x77u8)) });
+    grid_run(&code, "F*HL", &mut it, w);
   }
   for code in [vec![0xf9u8], vec![0xc5, 0xd1], vec![0xd5, 0xe1], vec![0xe5, 0xc1], vec![0xf5, 0xe1]] {
     if !mine() { continue; }
